@@ -286,3 +286,13 @@ def c05_d(ctx):
         ctx.check(ok, hc, 'has_context', 'seed and batch_size both set',
                   'has_context is not (seed is not None and batch_size is not None)', fn=hc,
                   node=rr[0] if rr else hc.node)
+
+
+# On-disk pools: the store bookkeeping decides which batches a reopened pool reports and
+# whether a batch is appended or overwritten in place.  Same obligations as C06-f / C06-g.
+from . import C06 as _C06   # noqa: E402
+
+obligation('C05-e', 'T1 T5 T6', 'array stores of a pool append only at their end and count '
+           'batches once (shared with C06-f)', floor=8,
+           necessary='a pool whose store appends where it should overwrite holds copies of other '
+                     'batches: reuse pairs parameters with the wrong simulations')(_C06.c06_f)
